@@ -6,7 +6,7 @@ use ntex_util::future::{Either, join};
 use ntex_util::{HashSet, services::inflight::InFlightService};
 
 use crate::error::{
-    DecodeError, DispatcherError, PayloadError, ProtocolError, SpecViolation,
+    DispatcherError, PayloadError, ProtocolError, SpecViolation,
 };
 use crate::v3::codec::{self, Decoded, Encoded, Packet};
 use crate::v3::shared::{Ack, MqttShared};
@@ -179,7 +179,9 @@ where
                     }
                     Ok(None)
                 } else {
-                    Err(ProtocolError::Decode(DecodeError::UnexpectedPayload).into())
+                    // publish was refused or its handler is gone, rest of its payload is dropped
+                    log::trace!("Payload chunk for inactive publish is dropped");
+                    Ok(None)
                 }
             }
             Decoded::Packet(Packet::PublishAck { packet_id }, _) => {
